@@ -5,6 +5,7 @@
 package chain
 
 import (
+	sdkerrors "cosmossdk.io/errors"
 	"context"
 	"errors"
 	"fmt"
@@ -310,7 +311,7 @@ func (l *Ledger) isMinter(s storetypes.KVStore, from string) bool {
 func (l *Ledger) Burn(ctx sdk.Context, msg *ftftypes.MsgBurn) (*ftftypes.MsgBurnResponse, error) {
 	idx, inject := l.begin(ctx, Call{Kind: "burn", From: msg.From, Denom: msg.Amount.Denom, Amount: coinStr(msg.Amount), NCoins: 1})
 	if inject {
-		return nil, l.finish(idx, ErrInjected)
+		return nil, l.finish(idx, sdkerrors.Wrap(ftftypes.ErrBurn, ErrInjected.Error()))
 	}
 	return &ftftypes.MsgBurnResponse{}, l.finish(idx, l.burn(ctx, msg))
 }
@@ -318,29 +319,29 @@ func (l *Ledger) Burn(ctx sdk.Context, msg *ftftypes.MsgBurn) (*ftftypes.MsgBurn
 func (l *Ledger) burn(ctx sdk.Context, msg *ftftypes.MsgBurn) error {
 	s := ctx.KVStore(l.key)
 	if !l.isMinter(s, msg.From) {
-		return fmt.Errorf("ledger: %s is not a minter", msg.From)
+		return sdkerrors.Wrapf(ftftypes.ErrUnauthorized, "ledger: %s is not a minter", msg.From)
 	}
 	_, from, err := bech32.DecodeAndConvert(msg.From)
 	if err != nil {
 		return err
 	}
 	if s.Has(blKey(from)) {
-		return fmt.Errorf("ledger: minter is blacklisted")
+		return sdkerrors.Wrapf(ftftypes.ErrBurn, "ledger: minter is blacklisted")
 	}
 	denom := l.norm(s, msg.Amount.Denom)
 	if denom != l.norm(s, string(s.Get([]byte(kDenom)))) {
-		return fmt.Errorf("ledger: burning denom is incorrect")
+		return sdkerrors.Wrapf(ftftypes.ErrBurn, "ledger: burning denom is incorrect")
 	}
 	if msg.Amount.Amount.IsNil() || !msg.Amount.Amount.IsPositive() {
-		return fmt.Errorf("ledger: burning amount is invalid")
+		return sdkerrors.Wrapf(ftftypes.ErrBurn, "ledger: burning amount is invalid")
 	}
 	if s.Has([]byte(kPaused)) {
-		return fmt.Errorf("ledger: burning is paused")
+		return sdkerrors.Wrapf(ftftypes.ErrBurn, "ledger: burning is paused")
 	}
 	fk := balKey(from, denom)
 	have := getInt(s, fk)
 	if have.Cmp(msg.Amount.Amount.BigInt()) < 0 {
-		return fmt.Errorf("ledger: insufficient funds to burn")
+		return sdkerrors.Wrapf(ftftypes.ErrBurn, "ledger: insufficient funds to burn")
 	}
 	setInt(s, fk, new(big.Int).Sub(have, msg.Amount.Amount.BigInt()))
 	sk := supplyKey(denom)
@@ -353,7 +354,7 @@ func (l *Ledger) burn(ctx sdk.Context, msg *ftftypes.MsgBurn) error {
 func (l *Ledger) Mint(ctx sdk.Context, msg *ftftypes.MsgMint) (*ftftypes.MsgMintResponse, error) {
 	idx, inject := l.begin(ctx, Call{Kind: "mint", From: msg.From, To: msg.Address, Denom: msg.Amount.Denom, Amount: coinStr(msg.Amount), NCoins: 1})
 	if inject {
-		return nil, l.finish(idx, ErrInjected)
+		return nil, l.finish(idx, sdkerrors.Wrap(ftftypes.ErrMint, ErrInjected.Error()))
 	}
 	return &ftftypes.MsgMintResponse{}, l.finish(idx, l.mint(ctx, msg))
 }
@@ -361,35 +362,35 @@ func (l *Ledger) Mint(ctx sdk.Context, msg *ftftypes.MsgMint) (*ftftypes.MsgMint
 func (l *Ledger) mint(ctx sdk.Context, msg *ftftypes.MsgMint) error {
 	s := ctx.KVStore(l.key)
 	if !l.isMinter(s, msg.From) {
-		return fmt.Errorf("ledger: %s is not a minter", msg.From)
+		return sdkerrors.Wrapf(ftftypes.ErrUnauthorized, "ledger: %s is not a minter", msg.From)
 	}
 	_, from, err := bech32.DecodeAndConvert(msg.From)
 	if err != nil {
 		return err
 	}
 	if s.Has(blKey(from)) {
-		return fmt.Errorf("ledger: minter is blacklisted")
+		return sdkerrors.Wrapf(ftftypes.ErrMint, "ledger: minter is blacklisted")
 	}
 	_, to, err := bech32.DecodeAndConvert(msg.Address)
 	if err != nil {
 		return err
 	}
 	if s.Has(blKey(to)) {
-		return fmt.Errorf("ledger: receiver is blacklisted")
+		return sdkerrors.Wrapf(ftftypes.ErrMint, "ledger: receiver is blacklisted")
 	}
 	denom := l.norm(s, msg.Amount.Denom)
 	if denom != l.norm(s, string(s.Get([]byte(kDenom)))) {
-		return fmt.Errorf("ledger: minting denom is incorrect")
+		return sdkerrors.Wrapf(ftftypes.ErrMint, "ledger: minting denom is incorrect")
 	}
 	if msg.Amount.Amount.IsNil() || !msg.Amount.Amount.IsPositive() {
-		return fmt.Errorf("ledger: minting amount is invalid")
+		return sdkerrors.Wrapf(ftftypes.ErrMint, "ledger: minting amount is invalid")
 	}
 	al := getInt(s, []byte(kAllowance))
 	if al.Cmp(msg.Amount.Amount.BigInt()) < 0 {
-		return fmt.Errorf("ledger: minting amount is greater than the allowance")
+		return sdkerrors.Wrapf(ftftypes.ErrMint, "ledger: minting amount is greater than the allowance")
 	}
 	if s.Has([]byte(kPaused)) {
-		return fmt.Errorf("ledger: minting is paused")
+		return sdkerrors.Wrapf(ftftypes.ErrMint, "ledger: minting is paused")
 	}
 	setInt(s, []byte(kAllowance), new(big.Int).Sub(al, msg.Amount.Amount.BigInt()))
 	sk := supplyKey(denom)
